@@ -20,6 +20,9 @@ const MODES: [(Compress, Validate, &str); 4] = [
     (Compress::Yes, Validate::Yes, "cmp/val"),
 ];
 
+/// The key sweep checks round trips only (prefixes are covered on the transcript configurations).
+static SKIP_PREFIXES: std::sync::atomic::AtomicBool = std::sync::atomic::AtomicBool::new(false);
+
 fn viol(rec: &mut Rec, sch: &str, art: &str, what: &str, id: &str, detail: String) {
     rec.violation(&format!("C12/{}/{}/{}", sch, art, what), id, detail);
 }
@@ -65,6 +68,10 @@ pub fn roundtrip<T: CanonicalSerialize + CanonicalDeserialize>(rec: &mut Rec, sc
             rec.class("roundtrip-ok");
         }
         rec.obs(&format!("{}|{}|{}|{}", sch, art, mn, again == bytes));
+        if SKIP_PREFIXES.load(std::sync::atomic::Ordering::Relaxed) {
+            out.push(Some(y));
+            continue;
+        }
         // every proper prefix must be an error
         let n = bytes.len();
         let cheap = matches!((c, v), (Compress::No, Validate::No));
@@ -241,6 +248,62 @@ pub fn scheme<S: Sch>(rec: &mut Rec, full_prefix: bool) {
     }
 }
 
+/// Keys of every small configuration (supported < max, bound lists of every shape, every number of
+/// variables): committer and verifier key round trips in all four modes, and one decision with the
+/// deserialized verifier key.
+pub fn key_sweep<S: Sch>(rec: &mut Rec) {
+    let mut cfgs: Vec<KeyCfg> = Vec::new();
+    if S::BOUNDS {
+        cfgs.extend(slice_a::<S>(3));
+    }
+    cfgs.extend(slice_c::<S>(false).into_iter().filter(|c| c.nv.unwrap_or(0) <= 4 && c.max <= 8).take(24));
+    for cfg in cfgs {
+        let id = format!("{}/keys/{}", S::NAME, cfg.id());
+        if !rec.take(&id) {
+            continue;
+        }
+        rec.dim("scheme", S::NAME);
+        let keys = match build_keys::<S>(&cfg, rec.seed) {
+            Ok(k) => k,
+            Err(_) => continue,
+        };
+        SKIP_PREFIXES.store(true, std::sync::atomic::Ordering::Relaxed);
+        let _ = roundtrip(rec, S::NAME, "committer-key", &id, &keys.ck, false);
+        let vks = roundtrip(rec, S::NAME, "verifier-key", &id, &keys.vk, false);
+        SKIP_PREFIXES.store(false, std::sync::atomic::Ordering::Relaxed);
+        // one honest and one false claim under the deserialized verifier key
+        let shapes = crate::source::shapes_short::<S>(&cfg, rec.seed);
+        let p = shapes[shapes.len() - 1].1.clone();
+        let z = S::points(&cfg, rec.seed)[0].1.clone();
+        let c = match commit_set::<S>(&keys, vec![lp::<S>("p", p, None, None)], rec.seed, 0) {
+            Ok(c) => c,
+            Err(_) => continue,
+        };
+        let s1 = match open_single::<S>(&keys, &c, &[0], &z, 0, rec.seed, 0) {
+            Ok(s) => s,
+            Err(_) => continue,
+        };
+        let cr: Vec<&LCm<S>> = c.comms.iter().collect();
+        let d0 = check_single::<S>(&keys, &cr, &z, &s1.values, &s1.proof, 0, rec.seed, 0);
+        let mut bad = s1.values.clone();
+        bad[0] += S::F::one();
+        for (m, v) in vks.iter().enumerate() {
+            if let Some(vk2) = v {
+                let keys2 = Keys::<S> { cfg: keys.cfg.clone(), pp: keys.pp.clone(), ck: keys.ck.clone(), vk: vk2.clone() };
+                let d1 = check_single::<S>(&keys2, &cr, &z, &s1.values, &s1.proof, 0, rec.seed, 0);
+                let d2 = check_single::<S>(&keys2, &cr, &z, &bad, &s1.proof, 0, rec.seed, 0);
+                rec.count_points(1);
+                rec.op(2);
+                let same = d1.accepted() == d0.accepted() && !d2.accepted();
+                rec.class(if same { "decisions-equal" } else { "decisions-differ" });
+                if !same {
+                    viol(rec, S::NAME, "verifier-key", "decision-changes", &id, format!("{}: with the deserialized verifier key the honest claim gives {} (original {}), the false claim {}", MODES[m].2, d1.short(), d0.short(), d2.short()));
+                }
+            }
+        }
+    }
+}
+
 pub fn special(rec: &mut Rec) {
     let id = "KZG/ser".to_string();
     if rec.take(&id) {
@@ -312,6 +375,7 @@ pub fn run(rec: &mut Rec) {
     let full = rec.thorough();
     crate::for_each_scheme!(S, {
         scheme::<S>(rec, full);
+        key_sweep::<S>(rec);
     });
     special(rec);
 }
